@@ -95,6 +95,23 @@ def check_case(ctx, case):
              sample=dict(kw={k: v for k, v in kw.items()}, n=len(values), dense_edges=ed.tolist()[:4], sparse_edges=es.tolist()[:4]))
     if not (all_close(ed2, ed, rel=0) and cd2.tolist() == cd.tolist() and all_close(xd2, xd, rel=0)):
         ctx.violation('shared-metricspace', 'two variograms on one MetricSpace differ', case)
+    # the truncated store survives in-place changes: lower the maximum lag, assign the distance function again (the
+    # metric space is re-created), raise the maximum lag back - the result is that of the untouched instance
+    try:
+        with quiet():
+            Vq = Variogram(coords, values, **kw)
+            Vq.maxlag = max(1.0, float(M) * 0.5)
+            observe(Vq)
+            Vq.set_dist_function(kw['dist_func'])
+            Vq.maxlag = M
+            eq, cq, xq = observe(Vq)
+        ctx.count('maxlag_down_distfunc_maxlag_up')
+        if not (all_close(eq, es, rel=1e-12) and cq.tolist() == cs.tolist() and all_close(xq, xs, rel=1e-9)):
+            ctx.violation('storage-after-setters', 'maxlag %r -> %r, dist_function re-assigned, maxlag -> %r on one instance: edges '
+                          '%r counts %r; the untouched instance gives edges %r counts %r' % (
+                              M, max(1.0, float(M) * 0.5), M, eq.tolist(), cq.tolist(), es.tolist(), cs.tolist()), case)
+    except ValueError as e:
+        ctx.reject('setters-ValueError:' + str(e)[:40])
     # a MetricSpace handed over *before* its distances were ever computed, used first with a smaller absolute
     # maxlag and then with this one / with none: earlier users must not change what later users see
     try:
